@@ -103,7 +103,7 @@ class Integrator(object):
                         else:
                             min_val = np.inf
                     else:
-                        if pa.get_number_of_particles() > 0:
+                        if pa.get_number_of_particles(real=True) > 0:
                             min_val = np.min(pa.dt_adapt)
                         else:
                             min_val = np.inf
